@@ -41,6 +41,10 @@ DamageOk == LET P == Layout(Ev.off, Ev.lens) IN
                      \* named deviation (known finding, see DESIGN.md): an EMPTY record whose type byte becomes 0 looks like a
                      \* preallocated region; the reader skips the rest of the block without reporting it
                      \/ Ev.dmg[d].zerotype = 1 /\ Matches(Ev.dmg[d].recs, surv, Ev.lens)
+                     \* a whole block reads back as zeros: it looks like a preallocated region and is skipped; every record with a
+                     \* fragment in it is dropped as a whole, and the drop is reported when the block interrupts a fragmented record
+                     \/ Ev.dmg[d].cls = "zeroblock" /\ Matches(Ev.dmg[d].recs, surv, Ev.lens)
+                        /\ (P[i].type \in {MIDDLE, LAST} => Ev.dmg[d].drops >= 1)
 \* (X = TRUE): evaluated as values; as action conjuncts TLC would branch on every disjunction inside them
 Next == /\ l <= Len(T) /\ Ev.e = "vec" /\ (LayoutOk = TRUE) /\ (CutsOk = TRUE) /\ (DamageOk = TRUE) /\ l' = l + 1
 Spec == Init /\ [][Next]_l
